@@ -330,11 +330,18 @@ let do_tap h =
       (hex r.tr_output_key) (if r.tr_even then 1 else 0) (match r.tr_control with None -> "-" | Some c -> hex c)
 
 (* ---------------------------------------------------------------- spends *)
-let oracle_ecdsa key digest der = ask_bool (Printf.sprintf "ecdsa %s %s %s" (hex key) (hex digest) (hex der))
-let oracle_schnorr key digest sg = ask_bool (Printf.sprintf "schnorr %s %s %s" (hex key) (hex digest) (hex sg))
+(* every signature verification is also reported (digest, key, signature), as the harness reports the arguments of CPubKey::Verify / XOnlyPubKey::VerifySchnorr *)
+let cur_id = ref ""
+let oracle_ecdsa key digest der =
+  Printf.printf "R %s D ecdsa %s %s %s\n" !cur_id (hex digest) (hex key) (hex der);
+  ask_bool (Printf.sprintf "ecdsa %s %s %s" (hex key) (hex digest) (hex der))
+let oracle_schnorr key digest sg =
+  Printf.printf "R %s D schnorr %s %s %s\n" !cur_id (hex digest) (hex key) (hex sg);
+  ask_bool (Printf.sprintf "schnorr %s %s %s" (hex key) (hex digest) (hex sg))
 
 let do_spend h =
   let id = get h "id" "" in
+  cur_id := id;
   match parse_transaction (ascii (unhexstr (get h "tx" ""))) with
   | PtxFail -> Printf.printf "R %s txfail\n" id
   | PtxExn -> Printf.printf "R %s txexn\n" id
